@@ -55,10 +55,14 @@ func (d *Delete) Unmarshal(b []byte) error {
 		d.SPISize = spiSize
 		d.NumberOfSPI = numberOfSPI
 
+		if numberOfSPI > 0 && spiSize != 4 {
+			return errors.Errorf("Delete: Unsupported SPI size %d", spiSize)
+		}
+
 		b = b[4:]
 		var spi uint32
-		for i := 0; i < len(b); i += 4 {
-			spi = binary.BigEndian.Uint32(b[i : i+4])
+		for i := 0; i < int(numberOfSPI); i++ {
+			spi = binary.BigEndian.Uint32(b[i*4 : i*4+4])
 			d.SPIs = append(d.SPIs, spi)
 		}
 	}
